@@ -114,9 +114,17 @@ class Und:
 
 
 def cond_val(guard, new, old):
-    """value of a cell written under an undecided test"""
+    """value of a cell written under an undecided test; writing the same value on both arms of the test is an unconditional write"""
     if isinstance(new, Und) or isinstance(old, Und):
         return Und(f"under {guard}")
+    if s_equal(new, old):
+        return new
+    from .sem import unfn
+    u = unfn(old) if isinstance(old, Rat) else None
+    if u is not None and u[0] == "cond" and len(u[1]) == 3 and isinstance(u[1][0], str):
+        g0 = u[1][0]
+        if (g0 == "not " + guard or guard == "not " + g0) and s_equal(u[1][1], new):
+            return new
     return F.fn("cond", guard, R(new), R(old))
 
 
@@ -443,14 +451,39 @@ def det_adj(m):
     raise Unsupported("inverse of a matrix larger than 3 x 3")
 
 
+def clear_denominators(entries):
+    """(L, [L * e]) with L the product of the distinct non-constant denominators: the scaled entries are polynomials whenever the
+    denominators are monomials (h^2, 2 h, 3 ...), which keeps sums of products over ONE common denominator"""
+    ents = [R(e) for e in entries]
+    L = F.const(1)
+    seen = set()
+    for e in ents:
+        if not e.d.is_const() and e.d.key() not in seen:
+            seen.add(e.d.key())
+            L = L * Rat(e.d)
+    return L, [e * L for e in ents]
+
+
 def inverse(a):
     if not isinstance(a, NDArr) or a.ndim != 2 or a.shape[0] != a.shape[1]:
         raise Unsupported("inverse of a non-square array")
-    det, adj = det_adj(a.tolist())
-    if R(det).is_zero():
-        raise PyRaise("LinAlgError", "singular matrix")
     n = a.shape[0]
-    return NDArr.new((n, n), [s_bin("/", adj[i][j], det) for i in range(n) for j in range(n)])
+    L, ents = clear_denominators(a.flat())
+    if not all(e.d.is_const() for e in ents):
+        L, ents = F.const(1), [R(e) for e in a.flat()]
+    det, adj = det_adj([ents[i * n:(i + 1) * n] for i in range(n)])
+    det = R(det)
+    if det.is_zero():
+        raise PyRaise("LinAlgError", "singular matrix")
+    out = []
+    for i in range(n):
+        for j in range(n):
+            num = R(adj[i][j]) * L           # inv(A) = L adj(L A) / det(L A)
+            if num.d.is_const() and det.d.is_const():
+                out.append(Rat(num.n.scale(det.d.const_value() / num.d.const_value()), det.n))     # one denominator for all entries
+            else:
+                out.append(num / det)
+    return NDArr.new((n, n), out)
 
 
 def arr_equal(a, b):
@@ -604,10 +637,14 @@ class ModuleEnv:
     def __init__(self, interp, rel):
         self.interp = interp
         self.rel = rel
-        self.mod = interp.ctx.src.mod(rel)
+        self.mod = None          # parsed on the first look-up: a module that is only named (never read) is not consulted
         self.globals = {}
         self.pending = {}
-        self._scan(self.mod.tree.body)
+
+    def _load(self):
+        if self.mod is None:
+            self.mod = self.interp.ctx.src.mod(self.rel)
+            self._scan(self.mod.tree.body)
 
     def _scan(self, body):
         for st in body:
@@ -649,6 +686,7 @@ class ModuleEnv:
         return None
 
     def lookup(self, name):
+        self._load()
         if name in self.globals:
             return self.globals[name]
         if name not in self.pending:
@@ -669,10 +707,13 @@ class ModuleEnv:
             if full + "." + nm in st or nm in st:
                 v = Builtin(full + "." + nm, st.get(full + "." + nm) or st[nm])
             elif rel:
-                v = self.interp.module(rel).lookup(nm)
-                if v is _MISSING:
-                    sub = self._local_file(full + "." + nm)
-                    v = self.interp.module(sub) if sub else Opaque(full + "." + nm)
+                sub = self._local_file(full + "." + nm)
+                if sub:
+                    v = self.interp.module(sub)             # `from package import module`
+                else:
+                    v = self.interp.module(rel).lookup(nm)
+                    if v is _MISSING:
+                        v = Opaque(full + "." + nm)
             else:
                 v = self.interp.external(full + "." + nm)
         else:
@@ -808,9 +849,15 @@ class Interp:
                 self.calls.append((self.tick(), f.name, list(args), dict(kwargs), r))
             return r
         if isinstance(f, Opaque):
-            if self.on_opaque is None:
-                raise Unsupported(f"call of {f.name} (no model)")
-            r = self.on_opaque(self, f, list(args), dict(kwargs), node)
+            r = NotImplemented
+            if self.on_opaque is not None:
+                r = self.on_opaque(self, f, list(args), dict(kwargs), node)
+            if r is NotImplemented:
+                # a routine without a model (warnings.warn, np.errstate ...): its result is opaque; it must not be handed an array or an
+                # object it could change behind the interpreter's back
+                if any(isinstance(x, (NDArr, Obj, dict, list, LU)) for x in list(args) + list(kwargs.values())):
+                    raise Unsupported(f"call of {f.name} (no model) with a mutable argument")
+                r = Opaque(f"result of {f.name}")
             self.calls.append((self.tick(), f.name, list(args), dict(kwargs), r))
             return r
         if isinstance(f, ClassRef):
@@ -827,6 +874,9 @@ class Interp:
         if any(isinstance(n, (ast.Yield, ast.YieldFrom)) for n in _walk_own(func.node)):
             raise Unsupported(f"generator function {func.name}")
         env = self.bind(func, args, kwargs)
+        q = getattr(func.node, "_vqual", None)
+        if q:
+            self.ctx.src.funcs_consulted.add(f"{func.module.rel}:{q}")
         if selfobj is None and func.cls is not None and args:
             selfobj = args[0]
         fr = Frame(func.module, env, func.closure, func.cls, selfobj, func)
@@ -1105,6 +1155,12 @@ class Interp:
             self.exec_try(st, frame)
         elif isinstance(st, ast.Assert):
             pass
+        elif isinstance(st, ast.With):
+            for item in st.items:
+                v = self.eval(item.context_expr, frame)
+                if item.optional_vars is not None:
+                    self.assign(item.optional_vars, v, frame, st)
+            self.exec_block(st.body, frame)
         elif isinstance(st, (ast.Import, ast.ImportFrom)):
             raise Unsupported("import inside a function")
         elif isinstance(st, (ast.Global, ast.Nonlocal)):
@@ -1165,6 +1221,13 @@ class Interp:
             raise PyRaise("ValueError", "in-place operation changes the shape")
         for i, e in zip(arr.ix, res.flat()):
             self.store_elem(arr.st, i, e, node)
+
+    def _inplace_set(self, arr, res):
+        ents = _bc_entries(res, arr.shape) if not isinstance(res, NDArr) or _broadcast(arr.shape, res.shape) == arr.shape else None
+        if ents is None:
+            raise PyRaise("ValueError", "output operand does not have the right shape")
+        for i, e in zip(arr.ix, ents):
+            self.store_elem(arr.st, i, e, None)
 
     def exec_for(self, st, frame):
         items = self.iterate(self.eval(st.iter, frame))
@@ -1661,7 +1724,16 @@ def _simple_namespace(it, a, k):
 
 def _op(opname):
     def f(it, a, k):
-        return it.binop(opname, a[0], a[1])
+        r = it.binop(opname, a[0], a[1])
+        out = a[2] if len(a) > 2 else k.get("out")
+        if out is not None:
+            if not isinstance(out, NDArr):
+                raise Unsupported("out= that is not an array")
+            it._inplace_set(out, r)
+            return out
+        if set(k) - {"out"}:
+            raise Unsupported(f"keyword {sorted(k)} of an element-wise function")
+        return r
     return f
 
 
@@ -1672,7 +1744,7 @@ EXTERNALS = {
     "numpy.transpose": _np_transpose, "numpy.swapaxes": _np_swapaxes,
     "numpy.atleast_1d": _np_atleast(1), "numpy.atleast_2d": _np_atleast(2),
     "numpy.array": _np_array, "numpy.asarray": _np_asarray, "numpy.ascontiguousarray": _np_asarray, "numpy.asfortranarray": _np_asarray,
-    "numpy.arange": _np_arange, "numpy.dot": _np_dot, "numpy.matmul": lambda it, a, k: matmul(a[0], a[1]),
+    "numpy.arange": _np_arange, "numpy.dot": _np_dot, "numpy.matmul": _op("@"), "numpy.copyto": lambda it, a, k: it._inplace_set(a[0], a[1]),
     "numpy.multiply": _op("*"), "numpy.add": _op("+"), "numpy.subtract": _op("-"), "numpy.divide": _op("/"), "numpy.true_divide": _op("/"),
     "numpy.linalg.solve": _la_solve, "numpy.linalg.inv": _la_inv,
     "scipy.linalg.solve": _la_solve, "scipy.linalg.inv": _la_inv,
